@@ -108,6 +108,7 @@ func structFieldID(x ssa.Value, field int) string {
 	if p, ok := t.Underlying().(*types.Pointer); ok {
 		t = p.Elem()
 	}
+	t = types.Unalias(t)
 	name := "?"
 	if n, ok := t.(*types.Named); ok {
 		name = n.Obj().Name()
